@@ -68,6 +68,15 @@ def riscv_parse(l, labels):
     if mn == 'sw':
         off, b = memop(ops[1]); rs = R(ops[0])
         return ('.sw %s (%s) %s' % (reg(rs), lit32(off), reg(b)), [('str', rs, b, off, 'stk' if b == 2 else 'mem')])
+    if mn in ('ld', 'sd'):
+        # RV64 only, and only for saving/restoring callee-saved registers on the stack (8-byte slots); see TJ.Asm.RV64
+        off, b = memop(ops[1]); r = R(ops[0])
+        if b != 2 or off % 8 != 0: raise TranslateError('ld/sd outside the stack frame not covered: %r' % l)
+        return ('.%s %s (%s) %s' % (mn, reg(r), lit32(off), reg(b)), [('ldr' if mn == 'ld' else 'str', r, b, off, 'stk')])
+    if mn in ('srliw', 'slliw'):
+        rd, rs, k = R(ops[0]), R(ops[1]), parse_int(ops[2])
+        if not 0 <= k < 32: raise TranslateError('shift amount out of range in %r' % l)
+        return ('.%s %s %s %d' % (mn, reg(rd), reg(rs), k), [('alu', 'mov', False, rd, rd, ('lsr' if mn == 'srliw' else 'lsl', rs, k))])
     if mn in ('srli', 'slli'):
         rd, rs, k = R(ops[0]), R(ops[1]), parse_int(ops[2])
         if not 0 <= k < 32: raise TranslateError('shift amount out of range in %r' % l)
@@ -234,6 +243,8 @@ CONFIGS = {
     # name: (file tag, cpp defines, parser, Lean ISA namespace, arg0 reg, arg1 reg, sp reg, callee-saved regs)
     'rv32i': ('riscv32i', ['__riscv', '__riscv_xlen=32'], riscv_parse, 'RiscV', 10, 11, 2, [1, 2, 8, 9] + list(range(18, 28))),
     'rv32e': ('riscv32e', ['__riscv', '__riscv_xlen=32', '__riscv_32e'], riscv_parse, 'RiscV', 10, 11, 2, [1, 2, 8, 9]),
+    # RV64I: verified on its 32-bit projection (W-form shifts, lw/sw, bitwise ops; 8-byte stack slots): see lean/TJ/Asm/RV64.lean
+    'rv64i': ('riscv64i', ['__riscv', '__riscv_xlen=64'], riscv_parse, 'RiscV', 10, 11, 2, [1, 2, 8, 9] + list(range(18, 28))),
     # ARM: r4-r11 and sp are callee-saved; the return goes to the caller's lr (checked separately)
     'armv6': ('armv6', ['__ARM_ARCH=6', '__arm__'], arm_parse, 'Arm', 0, 1, 13, [4, 5, 6, 7, 8, 9, 10, 11, 13]),
     'armv6m': ('armv6m', ['__ARM_ARCH=6', '__ARM_ARCH_6M__', '__ARM_ARCH_ISA_THUMB=1', '__arm__', '__thumb__'], arm_parse, 'Arm', 0, 1, 13, [4, 5, 6, 7, 8, 9, 10, 11, 13]),
